@@ -161,12 +161,7 @@ add("C04", K1, K1_WHAT, "K1",
 
 
 # ---- C10
-add("C10", K1, K1_WHAT + " (either build)", "K1",
-    case([["input", "a", "signal-explosion", 15], ["input", "b", "light-oil", 16],
-          ["sig", "flag", ["c", ">=", ["v", "a"], ["n", 4]]],
-          ["sig", "x", ["p", ["s", ["c", ">=", ["v", "a"], ["n", 4]], ["v", "b"]], "signal-stack-size"]],
-          ["sig", "w", ["p", ["s", ["v", "flag"], ["v", "b"]], "steam"]]],
-         "C01:cond_value", nval=6, edges={"a": [3, 4, 5]}))
+add("C10", K1, K1_WHAT + " (in one build and not, or differently, in the other: which connectors get chained depends on the layout, and the two builds have different layouts)", "K1", witness("C10-K1"))
 
 
 # ---- C11
